@@ -243,6 +243,27 @@ class Label(str):
     """A str subclass: still a string for every purpose of the property."""
 
 
+class Shown(str):
+    """A str subclass with a display form of its own (what ``class X(str, enum.Enum)`` members are):
+    equal to, hashing like and ``isinstance`` of str, but ``str()``, ``repr()`` and ``format()`` of it
+    give another text.  The name is the string value, not what it prints as."""
+
+    def __str__(self):
+        return '<' + str.__str__(self) + '>'
+
+    def __repr__(self):
+        return 'Shown.' + str.__str__(self).upper()
+
+    def __format__(self, spec):
+        return format('<' + str.__str__(self) + '>', spec)
+
+
+def _sub(x, r, k=0):
+    if not isinstance(x, str):
+        return x
+    return (Label, Shown)[(r.random() < .5) ^ (k % 2)](x)
+
+
 def _ops_triple():
     def drop_obj(t, r): o, p, b = t; i = r.randrange(len(o)) if o else 0; return (o[:i] + o[i + 1:], p, b)
     def drop_prop(t, r): o, p, b = t; j = r.randrange(len(p)) if p else 0; return (o, p[:j] + p[j + 1:], b)
@@ -293,7 +314,7 @@ def _ops_triple():
         o, p, b = t
         vals = {True: ['X', 1, 2.5, [0]], False: ['', 0, None, ()]}
         return (o, p, [[r.choice(vals[bool(c)]) for c in row] for row in b])
-    def strsubclass(t, r): o, p, b = t; return ([Label(x) for x in o], [Label(x) if i % 2 else x for i, x in enumerate(p)], b)
+    def strsubclass(t, r): o, p, b = t; return ([_sub(x, r, i) for i, x in enumerate(o)], [_sub(x, r, i) if i % 2 else x for i, x in enumerate(p)], b)
     def tuples(t, r): o, p, b = t; return (tuple(o), tuple(p), tuple(tuple(x) for x in b))
     return dict(locals())
 
@@ -362,7 +383,7 @@ def _ops_dict():
         return d
     def strsubclass(d, r):
         for k in ('objects', 'properties'):
-            if k in d and all(isinstance(x, str) for x in d[k]): d[k] = [Label(x) for x in d[k]]
+            if k in d and all(isinstance(x, str) for x in d[k]): d[k] = [_sub(x, r, i) for i, x in enumerate(d[k])]
         return d
     def tuples(d, r):
         for k in ('objects', 'properties'):
